@@ -66,6 +66,11 @@ def _modalias(mod):
     return "m_" + mod.replace(".", "_")
 
 
+def norm_path(p):
+    """empty segments do not count: '/a//b/' is the path '/a/b'"""
+    return "/" + "/".join(x for x in str(p).split("/") if x)
+
+
 def effective(spec, variant):
     """the program of a variant in which some functions are deleted ('drop:<fn>' edit points): the functions are gone and the
     items that called them are constants"""
@@ -259,6 +264,7 @@ class Renderer:
             "except_as": ["try:", f"    {t} = {e}", "except KeyError as err:", f"    {t} = str(err)"],
             "nested_def_param": ["def _inner(row):", "    return row", f"{t} = _inner({e})"],
             "if_false": [f"{t} = None", "if pipehelp.false():", f"    {t} = {e}"],   # written, analysed, never executed
+            "if_flag": [f"{t} = None", "if FLAG:", f"    {t} = {e}"],   # executed or not, depending on the tracked variable FLAG
             "for": [f"{t} = None", "for _k in range(1):", f"    {t} = {e}"],
             "while": [f"{t} = None", f"while {t} is None:", f"    {t} = {e}"],
             "with": [f"with pipehelp.ctx():", f"    {t} = {e}"],
@@ -479,7 +485,7 @@ class Cone:
                 b = self.binding(it["fn"], it.get("args", []), it.get("kwargs", []), fname, binding, idx)
                 calls.append(self.cf(it["fn"], b, stack + (fname,)))
             elif k == "load":
-                loads.append((it["path"], self.served.get(it["path"])))
+                loads.append((norm_path(it["path"]), self.served.get(norm_path(it["path"]))))
             for a in it.get("args", []) + [x for _, x in it.get("kwargs", [])]:
                 for leaf in ([a] if "ml" not in a else a["ml"]):
                     if "var" in leaf:
